@@ -144,7 +144,7 @@ def hist_family(prop, tier, runs, crash_phases, crash_note, conform, assumptions
 
 
 def check_c02(tier):
-    runs = [(["--fs"], 4, False)] if tier == "quick" else [(["--fs"], 5, False), (["--fs"], 7, True)]
+    runs = [(["--fs"], 4, False), (["--fs"], 5, True)] if tier == "quick" else [(["--fs"], 5, False), (["--fs"], 7, True)]
     return hist_family("C02", tier, runs, crash_phases=(1, 2),
                        crash_note="A process death while calling functions or after the injector went away counts as a violation of C02.",
                        conform=(["--fs"], 4 if tier == "thorough" else 3, False),
@@ -185,9 +185,27 @@ def check_c12h(tier):
                        assumptions_extra=["trampoline mappings are tracked at the mmap/munmap interface of the crate (vlibc), which is its only way to map memory on Linux"])
 
 
+def c17_arm(tier, mi):
+    """The same write/flush protocol on the AArch64 and 32-bit ARM back-ends (run on the host): a sample of the
+    C15/C16 placements is executed with the flush log on; entry, trampoline and restored bytes must be covered."""
+    viols = []
+    n = 0
+    for chk in ("c15", "c16"):
+        m, _ = e1_run(chk, tier)
+        n += m["tags"].get("flush-oracle", 0)
+        for v in m["violations"]:
+            if v["prop"] == "MACHINERY":
+                raise MachineryError(f"{v['key']}: {v['what']}")
+            if v["prop"] == "C17":
+                viols.append({"key": v["key"], "what": v["what"], "engine": "e1", "args": [chk], "case": v["case"]})
+    if n == 0 and not viols:
+        raise MachineryError("vacuous: the ARM placement runs never exercised the flush oracle")
+    return viols, {"transitions": n, "arm_installations_with_flush_oracle": n}
+
+
 def check_c17(tier):
     runs = [(["--fs", "--flush"], 4, False)] if tier == "quick" else [(["--fs", "--flush"], 5, False)]
-    return hist_family("C17", tier, runs, crash_phases=(),
+    return hist_family("C17", tier, runs, extra=c17_arm, crash_phases=(),
                        crash_note="Process deaths are left to C01/C02 (counted as undecided here).",
                        conform=(["--fs"], 3, False),
                        assumptions_extra=["the platform primitive __clear_cache is interposed (on x86-64 it is a no-op in libgcc); the macOS path (sys_icache_invalidate inside patch_function) is not compiled and not covered",
@@ -296,7 +314,7 @@ def times_family(prop, tier, runs, assumptions_extra, take_props=None, extra=Non
 
 def check_c14(tier):
     if tier == "quick":
-        runs = [["async", "--depth", "3", "--threads"], ["async", "--depth", "5", "--small"]]
+        runs = [["async", "--depth", "3", "--threads"], ["async", "--depth", "6", "--small"]]
     else:
         runs = [["async", "--depth", "4", "--threads"], ["async", "--depth", "7", "--small"]]
     return times_family("C14", tier, runs,
@@ -316,7 +334,7 @@ def c07_arm_matrix(tier, mi):
 
 
 def check_c07(tier):
-    runs = times_runs(tier, [0, 1, 2], 8, 9) + times_runs(tier, [1], 6, 8, threads=True)
+    runs = times_runs(tier, [0, 1, 2], 7, 9) + times_runs(tier, [1], 6, 8, threads=True)
     return times_family("C07", tier, runs,
                         ["a mismatch with the reference model is attributed to C07 when it occurs in a lifetime that follows earlier use of the same fake! source line, to C06 when it occurs in the first lifetime of a fresh process"],
                         extra=c07_arm_matrix)
@@ -335,7 +353,7 @@ def c06_concurrent(tier, mi):
 
 
 def check_c06(tier):
-    runs = times_runs(tier, [0, 1, 2, 3], 7, 9)
+    runs = times_runs(tier, [0, 1, 2, 3], 6, 9)
     return times_family("C06", tier, runs, ["a mismatch in the first lifetime of a fresh process is attributed to C06, in a later lifetime to C07"], extra=c06_concurrent)
 
 
@@ -382,7 +400,7 @@ def c05_extra(tier, mi):
 
 
 def check_c05(tier):
-    runs = [r + ["--postmortem"] for r in times_runs(tier, [0, 1, 2], 7, 9)]
+    runs = [r + ["--postmortem"] for r in times_runs(tier, [0, 1, 2], 6, 9)]
     return times_family("C05", tier, runs, [], extra=c05_extra)
 
 
